@@ -276,6 +276,20 @@ func normaliseComparisons(prog *ssa.Program) {
 				}
 				if isLen(bo.X) && !isLen(bo.Y) && !cy {
 					bo.X, bo.Y, bo.Op = bo.Y, bo.X, op
+					continue
+				}
+				// a package-level variable (a sentinel error, a type value) on the left: `ErrReturn == runInfo.err` becomes
+				// `runInfo.err == ErrReturn`
+				isGlobalLoad := func(v ssa.Value) bool {
+					u, ok := v.(*ssa.UnOp)
+					if !ok || u.Op != token.MUL {
+						return false
+					}
+					_, ok = u.X.(*ssa.Global)
+					return ok
+				}
+				if isGlobalLoad(bo.X) && !isGlobalLoad(bo.Y) && !cy {
+					bo.X, bo.Y, bo.Op = bo.Y, bo.X, op
 				}
 			}
 		}
